@@ -10,7 +10,7 @@ def run(c):
     obl_kani.run(c, ["k_keycode_table"])
     obl_phonetic.obl_split(c, 4 if c.tier == "quick" else 5, budget_s=900)
     A.obl_only_phonetic(c, 3 if c.tier == "quick" else 4, budget_s=900)
-    if A.validate_assembly_concrete(c):
-        ct = A.conv_table_for([p for w in A.WRAPPERS_QUICK for p in w])
-        A.obl_emoji(c, ct, thorough=(c.tier == "thorough"), budget_s=1500)   # carries the clause `transliteration_is_a_candidate` for every wrapper
+    A.validate_assembly_concrete(c)     # a mismatch makes the run inconclusive; the obligations still run, and what they find is reported only after native confirmation
+    ct = A.conv_table_for([p for w in A.WRAPPERS_QUICK for p in w])
+    A.obl_emoji(c, ct, thorough=(c.tier == "thorough"), budget_s=1500)   # carries the clause `transliteration_is_a_candidate` for every wrapper
     c.outside("whether okkhor implements Avro phonetic (okkhor is the oracle by definition); texts longer than the bounds")
